@@ -70,7 +70,7 @@ func micWrappers(c *Ctx, rule string, join bool) {
 			valPhy := absint.Copy(phy)
 			if err := in.Try(func() {
 				in.SetLive(dom)
-				calc = in.CallMethod(&absint.Cell{V: phy}, PT, wc.calc, args...)
+				calc = callMICCalc(in, phy, PT, wc.calc, wc.set, args...)
 				// re-parametrise the frame's MIC as computed-MIC XOR delta (a bijection of the input space): comparing
 				// free MIC variables with the CMAC output variables directly would need an exponential BDD
 				reparamMIC(in, valPhy, arrayBytes(calc[0], false), tag)
